@@ -19,7 +19,9 @@ class ConvertBase:
 
         buffer = target.empty(len(src))
         for to_, from_ in mapping.items():
+            value = src.__getattribute__(from_) if isinstance(from_, str) else from_
+            # Copy by position: the source's row labels need not be 0..n-1
             buffer.__setattr__(
-                to_, src.__getattribute__(from_) if isinstance(from_, str) else from_
+                to_, value.to_numpy() if hasattr(value, "to_numpy") else value
             )
         return buffer
